@@ -268,7 +268,7 @@ func TestVerifC19DB(t *testing.T) {
 	r.Rule("case = one store on a crashable MemFS (FormatNewest => WAL-sync chunks) with single-key batches of 20..1500-byte values filling 1..4 WAL blocks, every k-th batch committed with Sync (k in {1,2,3}), the last one always; " +
 		"per case 8 (thorough 24) crash clones (synced data only), each with ONE damaged region in the newest WAL: the damaged chunk is drawn uniformly from all chunks (2/3 of the draws restricted to blocks before the last when there are several), the pattern uniformly from " +
 		"{bit flip, zeroed chunk, zeroed 4KiB page, garbage, length/type/log-number/sync-offset field edit}; then pebble.Open. An evaluation = one Open of one damaged clone; distinct non-trivial = (case, damaged chunk offset, pattern) with a witness chunk.")
-	n := vcommon.Scale(18, 300)
+	n := vcommon.Scale(18, 100)
 	perCase := vcommon.Scale(8, 24)
 	var capSame, capLater, capOther int
 	r.Cases(n, func(ci int, rng *rand.Rand) {
